@@ -40,6 +40,9 @@ def gen_core(rng, knobs=None):
     frag = k['frag'] if 'frag' in k else rng.choice(FRAGS)
     opts = {'mode': mode, 'frag': frag, 'read_buffer': rng.choice([1, 3, 7, 64, 1024, 65536]),
             'late_actions': bool(k.get('late_actions'))}
+    if 'frag' not in k and rng.random() < 0.25:
+        # the two endpoints are configured with different fragment sizes (what one reassembles never depends on its own setting)
+        opts['frag_' + rng.choice(['c', 's'])] = rng.choice([f for f in FRAGS if f != frag])
     kinds = k.get('kinds') or ['rr', 'rr', 'stream', 'stream', 'channel', 'channel', 'fnf', 'push']
     sources = k.get('sources') or SOURCES
     n_inter = rng.randint(k.get('min_inter', 1), k.get('max_inter', 4))
